@@ -831,8 +831,15 @@ func (e *Engine) modTargets(env *SpecEnv, x *SExpr) []modTarget {
 			suffix, ix := e.pathSuffix(p)
 			var out []modTarget
 			initOnly, _ := e.stableKeys()
+			reassigned := false
+			if len(idx) == 1 {
+				// a declared init-only field that some function nevertheless stores
+				// through a non-fresh object (the lock acquire then havocs it too) is
+				// an ordinary location for the frame
+				reassigned = e.fieldReassigned(base.(PtrV).Elem, x.Name)
+			}
 			for _, ks := range e.leafKeys(p.rootName(e)+suffix, ft, len(ix)) {
-				if initOnly[ks.Key] {
+				if initOnly[ks.Key] && !reassigned {
 					continue // the field itself never changes; only what it refers to
 				}
 				out = append(out, modTarget{ks: ks, ref: e.rootRef(env.st, p), whole: len(ix) > 0 && false})
